@@ -8,7 +8,9 @@ from .callgraph import _dispatch, _receiver_classes, EXTERNAL
 
 P, U = "P", "U"
 # modules whose functions are interpreted (the read path); calls elsewhere cannot touch the stream
-DESCEND_MODULES = {"tdms", "reader", "tdms_segment", "base_segment", "daqmx", "types", "channel_data"}
+# modules of the baseline tree the cursor interpreter does NOT follow calls into (no stream operations there); every other module
+# of the package - including modules that did not exist on the baseline tree - is followed
+NO_DESCEND_MODULES = {"common", "log", "scaling", "thermocouples", "timestamp", "utils", "version", "writer", "tdmsinfo", "export.hdf_export", "export.pandas_export", "export", "__init__"}
 MAX_DEPTH = 14
 
 
@@ -397,7 +399,7 @@ class CursorInterp:
                 out = out | state
                 continue
             streams = self.bind_streams(callee, c, env, self_cls)
-            if callee.module.name not in DESCEND_MODULES or any(x[0] is callee for x in self.active):
+            if callee.module.name in NO_DESCEND_MODULES or any(x[0] is callee for x in self.active):
                 out = out | state
                 continue
             self.active.append((callee,))
@@ -505,9 +507,11 @@ def ct1(ctx, R):
         interp.run_func(fi, fi.cls, set(), frozenset([U]), on_yield, 0)
         if interp.n_reads == 0:
             raise AnchorMissing("%s: no position-dependent stream operation reached (call resolution lost the reader chain)" % q)
-        need = {"tdms_segment.ContiguousDataReader", "tdms_segment.InterleavedDataReader", "daqmx.DaqmxDataReader"}
+        need = set()
+        for q_ in ("tdms_segment.ContiguousDataReader", "tdms_segment.InterleavedDataReader", "daqmx.DaqmxDataReader"):
+            need.add(prog.cls(q_).qual)          # wherever the class lives now
         if q not in ("tdms.TdmsChannel._read_slice",) and not need <= interp.classes_seen:
-            raise AnchorMissing("%s: data reader classes not all explored (missing %s)" % (q, sorted(need - interp.classes_seen)))
+            raise AnchorMissing("%s: data reader classes not all explored (missing %s; seen %s)" % (q, sorted(need - interp.classes_seen), sorted(interp.classes_seen)))
         for (f2, node, why) in interp.undecided:
             R.undecided("%s::%s" % (q, f2.qual), f2.where(node), why)
         if len(R.violations) == before:
